@@ -187,10 +187,22 @@ func (im *ctImporter) Import(path string) (*types.Package, error) {
 	return im.std.Import(path)
 }
 
+// packages to load (in dependency order); ctPkgFiles gives an explicit file list for a package whose files
+// carry build constraints (one architecture's view)
+var ctPkgRels = []string{"utils", "sm3", "sm2/internal/fiat", "sm2/internal", "sm2"}
+var ctPkgFiles = map[string][]string{}
+
 func ctLoad(fset *token.FileSet) map[string]*ctPkg {
+	// the "source" importer resolves third-party imports (sm4 imports cpuid) through the go command relative to
+	// the working directory: type-check from inside the module under translation, wherever we were started
+	if wd, err := os.Getwd(); err == nil {
+		if abs, err2 := filepath.Abs(repo); err2 == nil && os.Chdir(abs) == nil {
+			defer os.Chdir(wd)
+		}
+	}
 	im := &ctImporter{std: importer.ForCompiler(fset, "source", nil), mine: map[string]*types.Package{}}
 	pkgs := map[string]*ctPkg{}
-	for _, rel := range []string{"utils", "sm3", "sm2/internal/fiat", "sm2/internal", "sm2"} {
+	for _, rel := range ctPkgRels {
 		dir := filepath.Join(repo, rel)
 		ents, err := os.ReadDir(dir)
 		if err != nil {
@@ -217,7 +229,15 @@ func ctLoad(fset *token.FileSet) map[string]*ctPkg {
 					}
 				}
 			}
-			if tagged {
+			if files, explicit := ctPkgFiles[rel]; explicit {
+				keep := false
+				for _, fn := range files {
+					keep = keep || fn == n
+				}
+				if !keep {
+					continue // an explicit file list (one architecture's view of the package)
+				}
+			} else if tagged {
 				continue // verif hooks, table generators: not part of the default build
 			}
 			p.files = append(p.files, f)
@@ -249,21 +269,25 @@ type retKind struct {
 }
 
 type ctFn struct {
-	key     string
-	id      int
-	pkg     *ctPkg
-	decl    *ast.FuncDecl
-	initOf  *types.Var // synthetic: initialiser of this package-level variable
-	initX   ast.Expr
-	params  []*types.Var
-	results []*types.Var
-	written []bool
-	rets    []retKind
-	holds   [][]int // per result: parameters whose storage the result keeps pointers into
-	failed  string  // optional root that could not be translated
-	base    *ctFn   // clone of base for a constant value of one bool parameter
-	specVar *types.Var
-	specVal bool
+	key       string
+	id        int
+	pkg       *ctPkg
+	decl      *ast.FuncDecl
+	initOf    *types.Var // synthetic: initialiser of this package-level variable
+	initX     ast.Expr
+	params    []*types.Var
+	results   []*types.Var
+	written   []bool
+	rets      []retKind
+	holds     [][]int    // per result: parameters whose storage the result keeps pointers into
+	failed    string     // optional root that could not be translated
+	recvObj   *types.Var // receiver replaced by its fields (ctExplode): the first nExploded parameters
+	nExploded int
+	capParams []int       // parameters whose capacity is a hidden (public) parameter
+	resView   map[int]int // result j is a window of result i: returned as its offset
+	base      *ctFn       // clone of base for a constant value of one bool parameter
+	specVar   *types.Var
+	specVal   bool
 	// output
 	nvars    int
 	varNames []string
@@ -359,7 +383,16 @@ func (t *ctTr) addFn(key string) *ctFn {
 	sig := obj.Type().(*types.Signature)
 	f := &ctFn{key: key, pkg: p, decl: fd}
 	if r := sig.Recv(); r != nil {
-		f.params = append(f.params, r)
+		if st, ok := ctExplodeStruct(r.Type()); ok {
+			// the receiver is replaced by its fields (separate labels for key material and sizes)
+			f.recvObj = r
+			f.nExploded = st.NumFields()
+			for i := 0; i < st.NumFields(); i++ {
+				f.params = append(f.params, st.Field(i))
+			}
+		} else {
+			f.params = append(f.params, r)
+		}
 	}
 	for i := 0; i < sig.Params().Len(); i++ {
 		f.params = append(f.params, sig.Params().At(i))
@@ -373,6 +406,7 @@ func (t *ctTr) addFn(key string) *ctFn {
 		f.rets[i] = retKind{fresh: true}
 	}
 	f.holds = make([][]int, len(f.results))
+	f.resView = map[int]int{}
 	t.fns[key] = f
 	t.byObj[obj] = f
 	t.order = append(t.order, f)
@@ -540,11 +574,35 @@ func (t *ctTr) discoverNode(p *ctPkg, n ast.Node) {
 			}
 		case *ast.Ident:
 			if v, ok := p.info.Uses[e].(*types.Var); ok && !v.IsField() && ctInMine(v) && v.Parent() == v.Pkg().Scope() {
-				t.addGlobal(t.globalKey(v), v)
+				if _, assumed := ctAssume[v.Name()]; !assumed {
+					t.addGlobal(t.globalKey(v), v)
+				}
+			}
+		case *ast.IfStmt:
+			if c, ok := ctAssume[t.src(e.Cond)]; ok {
+				// a condition fixed by the premises of the property: only the live branch is followed
+				if e.Init != nil {
+					t.discoverNode(p, e.Init)
+				}
+				if c == "1" {
+					t.discoverNode(p, e.Body)
+				} else if e.Else != nil {
+					t.discoverNode(p, e.Else)
+				}
+				return false
 			}
 		case *ast.CallExpr:
+			if key := t.devirtKey(p, e); key != "" {
+				if _, ok := t.fns[key]; !ok {
+					f := t.addFn(key)
+					t.discoverNode(f.pkg, f.decl.Body)
+				}
+			}
 			if o := ctCalleeOf(p.info, e); o != nil && ctInMine(o) {
 				key := ctFuncKey(o)
+				if _, isAsm := ctAsm[key]; isAsm {
+					return true
+				}
 				if _, ok := t.fns[key]; !ok {
 					f := t.addFn(key)
 					t.discoverNode(f.pkg, f.decl.Body)
@@ -561,6 +619,9 @@ func (t *ctTr) discoverNode(p *ctPkg, n ast.Node) {
 type aliasMap map[types.Object]types.Object
 
 func (t *ctTr) rootObj(p *ctPkg, e ast.Expr, al aliasMap) types.Object {
+	if e == nil {
+		return nil
+	}
 	switch x := ast.Unparen(e).(type) {
 	case *ast.Ident:
 		o := p.info.Uses[x]
@@ -602,7 +663,7 @@ func (t *ctTr) rootObj(p *ctPkg, e ast.Expr, al aliasMap) types.Object {
 		}
 		if o := ctCalleeOf(p.info, x); o != nil {
 			if g, ok := t.byObj[o]; ok && len(g.rets) > 0 && !g.rets[0].fresh && g.rets[0].param >= 0 {
-				args := ctCallArgs(p.info, x)
+				args := t.alignArgs(g, p.info, x)
 				if g.rets[0].param < len(args) {
 					return t.rootObj(p, args[g.rets[0].param], al)
 				}
@@ -709,10 +770,14 @@ func (t *ctTr) analyse(f *ctFn) bool {
 			}
 			if o := ctCalleeOf(p.info, s); o != nil {
 				if g, ok := t.byObj[o]; ok {
-					for j, a := range ctCallArgs(p.info, s) {
-						if j < len(g.written) && g.written[j] {
+					for j, a := range t.alignArgs(g, p.info, s) {
+						if a != nil && j < len(g.written) && g.written[j] {
 							mark(a)
 						}
+					}
+				} else if sp, ok := ctAsm[ctFuncKey(o)]; ok && ctInMine(o) {
+					for _, k := range sp.written {
+						mark(s.Args[k])
 					}
 				} else if ctFuncKey(o) == "io.ReadFull" {
 					mark(s.Args[1])
@@ -795,26 +860,51 @@ type ctAliasPair struct {
 	x, r types.Object
 	pos  token.Pos
 	snap bool // pointer stored into aggregate x (otherwise: slice/pointer alias x of r)
+	br   []ctBranch
+	end  token.Pos // end of the statement that makes the alias (the loop start when made in a loop)
 }
 
 type ctWrite struct {
 	root   types.Object
 	pos    token.Pos
 	viaPtr bool
+	br     []ctBranch
+}
+
+type ctBranch struct {
+	ifPos token.Pos
+	arm   int
+}
+
+// exclusive: the two program points lie in different arms of the same if statement
+func ctExclusive(a, b []ctBranch) bool {
+	for i := 0; i < len(a) && i < len(b); i++ {
+		if a[i].ifPos != b[i].ifPos {
+			return false
+		}
+		if a[i].arm != b[i].arm {
+			return true
+		}
+	}
+	return false
 }
 
 type fnTr struct {
-	t     *ctTr
-	f     *ctFn
-	p     *ctPkg
-	vars  map[types.Object]int
-	names []string
-	al    aliasMap
-	pairs []ctAliasPair
-	wr    []ctWrite
-	loops []ast.Node
-	junk  int
-	rdPos int // variable holding the position of the reader (functions that call io.ReadFull), else -1
+	t        *ctTr
+	f        *ctFn
+	p        *ctPkg
+	vars     map[types.Object]int
+	names    []string
+	al       aliasMap
+	pairs    []ctAliasPair
+	wr       []ctWrite
+	loops    []ast.Node
+	junk     int
+	rdPos    int                      // variable holding the position of the reader (functions that call io.ReadFull), else -1
+	views    map[types.Object]*ctView // slice variables represented as a window (base variable, offset variable)
+	capVar   map[types.Object]int     // hidden parameters: capacity of a slice parameter
+	branches []ctBranch               // enclosing if-branches (for the aliasing discipline)
+	curEnd   token.Pos                // end of the simple statement being translated
 }
 
 func (x *fnTr) fail(pos token.Pos, format string, a ...interface{}) { x.t.fail(pos, format, a...) }
@@ -959,6 +1049,15 @@ func (x *fnTr) fieldIndex(sel *ast.SelectorExpr) int {
 	return s.Index()[0]
 }
 
+// fieldPath: the field indices of a selector (more than one through embedded structs)
+func (x *fnTr) fieldPath(sel *ast.SelectorExpr) []int {
+	s := x.p.info.Selections[sel]
+	if s == nil || s.Kind() != types.FieldVal || len(s.Index()) == 0 {
+		x.fail(sel.Pos(), "unsupported selector %s", x.t.src(sel))
+	}
+	return s.Index()
+}
+
 func (x *fnTr) constOf(e ast.Expr) (string, bool) {
 	tv, ok := x.p.info.Types[e]
 	if !ok || tv.Value == nil {
@@ -1015,10 +1114,16 @@ func (x *fnTr) expr(e ast.Expr, pre *[]string) string {
 		if x.isNilIdent(v) {
 			x.fail(v.Pos(), "nil in a value position without a known type")
 		}
+		if vw := x.viewOf(v); vw != nil {
+			return fmt.Sprintf("(.slice %s %s (.len %s))", ctVar(vw.base), ctVar(vw.off), ctVar(vw.base))
+		}
 		if n, ok := x.varOf(v); ok {
 			return ctVar(n)
 		}
 		if o, ok := info.Uses[v].(*types.Var); ok && ctInMine(o) && o.Parent() == o.Pkg().Scope() {
+			if c, ok := ctAssume[o.Name()]; ok {
+				return ctLit(c)
+			}
 			return fmt.Sprintf("(.glob %d)", x.t.globIdx[x.t.globalKey(o)])
 		}
 		x.fail(v.Pos(), "unsupported identifier %s", v.Name)
@@ -1045,8 +1150,15 @@ func (x *fnTr) expr(e ast.Expr, pre *[]string) string {
 		if x.t.src(v) == ctCurveP {
 			return fmt.Sprintf("(.glob %d)", x.t.globIdx["internal.curveP"])
 		}
+		if fv, ok := x.explodedField(v); ok {
+			return ctVar(fv)
+		}
 		if _, ok := info.Selections[v]; ok {
-			return fmt.Sprintf("(.idxc %s %d)", x.expr(v.X, pre), x.fieldIndex(v))
+			r := x.expr(v.X, pre)
+			for _, k := range x.fieldPath(v) {
+				r = fmt.Sprintf("(.idxc %s %d)", r, k)
+			}
+			return r
 		}
 		if o, ok := info.Uses[v.Sel].(*types.Var); ok && ctInMine(o) {
 			return fmt.Sprintf("(.glob %d)", x.t.globIdx[x.t.globalKey(o)])
@@ -1072,6 +1184,9 @@ func (x *fnTr) expr(e ast.Expr, pre *[]string) string {
 			return a
 		}
 		a = x.hoist(a, pre)
+		if ext, ok := x.capExtension(v, a, pre); ok {
+			return ext
+		}
 		lo, hi := "(.lit 0)", "(.len "+a+")"
 		if v.Low != nil {
 			lo = x.expr(v.Low, pre)
@@ -1115,7 +1230,7 @@ func (x *fnTr) composite(cl *ast.CompositeLit, pre *[]string) string {
 			x.fail(kv.Pos(), "unknown field %s", name)
 		}
 		// a pointer field must own its storage: only fresh values may be stored
-		if ctPtrLike(u.Field(idx).Type()) {
+		if ctPtrLike(u.Field(idx).Type()) && !ctAllowShare[x.f.key] {
 			if r := x.t.rootObj(x.p, kv.Value, x.al); r != nil {
 				x.fail(kv.Pos(), "struct field %s would share storage with %s", name, r.Name())
 			}
@@ -1266,9 +1381,12 @@ type ctLv struct {
 	v        int
 	path     []string
 	root     types.Object
-	ptrSteps int  // index steps through elements of pointer type
-	lastPtr  bool // the last step was such a step
+	ptrSteps int    // index steps through elements of pointer type
+	lastPtr  bool   // the last step was such a step
+	win      *ctWin // a window [lo, hi) of the root variable (only with an empty path); hi "" = to the end
 }
+
+type ctWin struct{ lo, hi string }
 
 func (x *fnTr) lvalue(e ast.Expr, pre *[]string) (ctLv, bool) {
 	info := x.p.info
@@ -1276,6 +1394,9 @@ func (x *fnTr) lvalue(e ast.Expr, pre *[]string) (ctLv, bool) {
 	case *ast.ParenExpr:
 		return x.lvalue(v.X, pre)
 	case *ast.Ident:
+		if vw := x.viewOf(v); vw != nil {
+			return ctLv{v: vw.base, root: vw.baseObj, win: &ctWin{lo: ctVar(vw.off)}}, true
+		}
 		if n, ok := x.varOf(v); ok {
 			o := info.Uses[v]
 			if o == nil {
@@ -1302,7 +1423,13 @@ func (x *fnTr) lvalue(e ast.Expr, pre *[]string) (ctLv, bool) {
 			if !ok {
 				return lv, false
 			}
-			lv.path = append(append([]string{}, lv.path...), fmt.Sprintf(".c %d", x.fieldIndex(v)))
+			if lv.win != nil {
+				x.fail(v.Pos(), "field of a slice window")
+			}
+			lv.path = append([]string{}, lv.path...)
+			for _, k := range x.fieldPath(v) {
+				lv.path = append(lv.path, fmt.Sprintf(".c %d", k))
+			}
 			lv.lastPtr = false
 			return lv, true
 		}
@@ -1315,7 +1442,11 @@ func (x *fnTr) lvalue(e ast.Expr, pre *[]string) (ctLv, bool) {
 			return lv, false
 		}
 		step := ""
-		if c, ok := x.constOf(v.Index); ok && !strings.HasPrefix(c, "-") {
+		if lv.win != nil {
+			// an element of a window: index lo + i of the root
+			step = ".e " + x.hoist(fmt.Sprintf("(.op2 (.add .i64) %s %s)", lv.win.lo, x.expr(v.Index, pre)), pre)
+			lv.win = nil
+		} else if c, ok := x.constOf(v.Index); ok && !strings.HasPrefix(c, "-") {
 			step = ".c " + c
 		} else {
 			step = ".e " + x.hoist(x.expr(v.Index, pre), pre)
@@ -1331,6 +1462,26 @@ func (x *fnTr) lvalue(e ast.Expr, pre *[]string) (ctLv, bool) {
 		if v.Low == nil && v.High == nil {
 			return x.lvalue(v.X, pre)
 		}
+		if ctWindows && !v.Slice3 {
+			lv, ok := x.lvalue(v.X, pre)
+			if !ok || len(lv.path) != 0 {
+				return ctLv{}, false
+			}
+			base := "(.lit 0)"
+			oldHi := ""
+			if lv.win != nil {
+				base, oldHi = lv.win.lo, lv.win.hi
+			}
+			w := &ctWin{lo: base, hi: oldHi}
+			if v.Low != nil {
+				w.lo = x.hoist(fmt.Sprintf("(.op2 (.add .i64) %s %s)", base, x.expr(v.Low, pre)), pre)
+			}
+			if v.High != nil {
+				w.hi = x.hoist(fmt.Sprintf("(.op2 (.add .i64) %s %s)", base, x.expr(v.High, pre)), pre)
+			}
+			lv.win = w
+			return lv, true
+		}
 	case *ast.CallExpr:
 		if tv, ok := info.Types[v.Fun]; ok && tv.IsType() && len(v.Args) == 1 && !ctIsIntRepr(tv.Type) {
 			return x.lvalue(v.Args[0], pre)
@@ -1342,13 +1493,27 @@ func (x *fnTr) lvalue(e ast.Expr, pre *[]string) (ctLv, bool) {
 func (x *fnTr) pathStr(p []string) string { return "[" + strings.Join(p, ", ") + "]" }
 
 func (x *fnTr) store(lv ctLv, val string, pos token.Pos, rebind bool, out *[]string) {
+	if lv.win != nil {
+		// the window [lo, hi) of the root is replaced by val (of the same length)
+		b := ctVar(lv.v)
+		tail := ""
+		if lv.win.hi != "" {
+			tail = fmt.Sprintf("(.slice %s %s (.len %s))", b, lv.win.hi, b)
+		}
+		v := val
+		if tail != "" {
+			v = fmt.Sprintf("(.cat %s %s)", val, tail)
+		}
+		val = fmt.Sprintf("(.cat (.slice %s (.lit 0) %s) %s)", b, lv.win.lo, v)
+		lv.win = nil
+	}
 	*out = append(*out, fmt.Sprintf(".assign %d %s %s", lv.v, x.pathStr(lv.path), val))
 	if len(lv.path) > 0 || !rebind {
 		via := lv.ptrSteps > 0
 		if rebind && lv.lastPtr {
 			via = lv.ptrSteps > 1
 		}
-		x.wr = append(x.wr, ctWrite{root: x.resolve(lv.root), pos: pos, viaPtr: via})
+		x.wr = append(x.wr, ctWrite{root: x.resolve(lv.root), pos: pos, viaPtr: via, br: append([]ctBranch{}, x.branches...)})
 	}
 }
 
@@ -1373,7 +1538,12 @@ func (x *fnTr) noteAlias(xo, r types.Object, pos token.Pos, snap bool) {
 	if xo == nil || r == nil || xo == r {
 		return
 	}
-	x.pairs = append(x.pairs, ctAliasPair{x: xo, r: r, pos: x.aliasPos(pos, r), snap: snap})
+	ap := x.aliasPos(pos, r)
+	end := x.curEnd
+	if ap != pos || end < pos {
+		end = ap
+	}
+	x.pairs = append(x.pairs, ctAliasPair{x: xo, r: r, pos: ap, snap: snap, br: append([]ctBranch{}, x.branches...), end: end})
 }
 
 // ---- calls --------------------------------------------------------------------------------------------------
@@ -1457,9 +1627,18 @@ func (x *fnTr) call(call *ast.CallExpr, pre *[]string, used bool) []string {
 	case "panic":
 		*pre = append(*pre, ".panic")
 		return nil
+	case "cap":
+		return []string{x.capExpr(call.Args[0])}
 	case "":
 	default:
 		x.fail(call.Pos(), "unsupported builtin %s", x.builtinName(call))
+	}
+	if key := x.t.devirtKey(x.p, call); key != "" {
+		g, ok := x.t.fns[key]
+		if !ok {
+			x.fail(call.Pos(), "devirtualised callee %s was not discovered", key)
+		}
+		return x.userCall(call, g, pre, used)
 	}
 	o := ctCalleeOf(info, call)
 	if o == nil {
@@ -1468,10 +1647,16 @@ func (x *fnTr) call(call *ast.CallExpr, pre *[]string, used bool) []string {
 	if g, ok := x.t.byObj[o]; ok {
 		return x.userCall(call, x.t.variantFor(g, info, call, false), pre, used)
 	}
+	if sp, ok := ctAsm[ctFuncKey(o)]; ok && ctInMine(o) {
+		return x.asmCall(call, ctFuncKey(o), sp, pre, used)
+	}
 	if ctInMine(o) {
 		x.fail(call.Pos(), "callee %s was not discovered", ctFuncKey(o))
 	}
 	key := ctExtKey(o)
+	if rs, ok := x.binaryCall(call, key, pre); ok {
+		return rs
+	}
 	arg := func(i int) string { return x.hoist(x.expr(call.Args[i], pre), pre) }
 	switch key {
 	case "bits.Mul64":
@@ -1517,7 +1702,7 @@ func (x *fnTr) extCall(call *ast.CallExpr, key string, sp extSpec, pre *[]string
 		args = []string{x.expr(call.Args[0], pre), "(.len " + x.expr(call.Args[1], pre) + ")", ctVar(x.rdPos)}
 		n, e := x.tmp(), x.tmp()
 		*pre = append(*pre, fmt.Sprintf(".ext [%d, %d, %d, %d] %d %s [%s]", lv.v, n, e, x.rdPos, id, leaky, strings.Join(args, ", ")))
-		x.wr = append(x.wr, ctWrite{root: x.resolve(lv.root), pos: call.Pos()})
+		x.wr = append(x.wr, ctWrite{root: x.resolve(lv.root), pos: call.Pos(), br: append([]ctBranch{}, x.branches...)})
 		return []string{ctVar(n), ctVar(e)}
 	case key == "big.Int.Bytes":
 		// l := ByteLen(z); (declassified at a listed site, or left secret: the checker then rejects the
@@ -1542,7 +1727,7 @@ func (x *fnTr) extCall(call *ast.CallExpr, key string, sp extSpec, pre *[]string
 		}
 		args = []string{x.expr(sel.X, pre), x.expr(call.Args[0], pre)}
 		*pre = append(*pre, fmt.Sprintf(".ext [%d] %d %s [%s]", lv.v, id, leaky, strings.Join(args, ", ")))
-		x.wr = append(x.wr, ctWrite{root: x.resolve(lv.root), pos: call.Pos()})
+		x.wr = append(x.wr, ctWrite{root: x.resolve(lv.root), pos: call.Pos(), br: append([]ctBranch{}, x.branches...)})
 		return []string{ctVar(lv.v)}
 	case strings.HasPrefix(key, "big.Int."):
 		sel := ast.Unparen(call.Fun).(*ast.SelectorExpr)
@@ -1614,7 +1799,7 @@ func (x *fnTr) copyStmt(call *ast.CallExpr, pre *[]string) {
 
 func (x *fnTr) userCall(call *ast.CallExpr, g *ctFn, pre *[]string, used bool) []string {
 	info := x.p.info
-	args := ctCallArgs(info, call)
+	args := x.t.alignArgs(g, info, call)
 	if x.t.usesReader(g) {
 		x.fail(call.Pos(), "%s reads from an io.Reader: the reader position is modelled per entry function, such a function cannot be a callee", g.key)
 	}
@@ -1626,6 +1811,15 @@ func (x *fnTr) userCall(call *ast.CallExpr, g *ctFn, pre *[]string, used bool) [
 	roots := make([]types.Object, len(args))
 	for j, a := range args {
 		pt := g.params[j].Type()
+		if a == nil {
+			// a field of the caller's own exploded receiver
+			n, ok := x.vars[g.params[j]]
+			if !ok {
+				x.fail(call.Pos(), "%s: the receiver is not the caller's own receiver", g.key)
+			}
+			vals[j] = ctVar(n)
+			continue
+		}
 		if x.isNilIdent(a) {
 			vals[j] = x.zero(pt, a.Pos())
 			continue
@@ -1643,6 +1837,9 @@ func (x *fnTr) userCall(call *ast.CallExpr, g *ctFn, pre *[]string, used bool) [
 			}
 		}
 	}
+	for _, k := range g.capParams {
+		vals = append(vals, x.capExpr(args[k]))
+	}
 	// aliasing between a written parameter and another pointer parameter
 	for j := range args {
 		if !g.written[j] || roots[j] == nil {
@@ -1659,7 +1856,7 @@ func (x *fnTr) userCall(call *ast.CallExpr, g *ctFn, pre *[]string, used bool) [
 				}
 				x.fail(call.Pos(), "%s: parameters %d and %d are both written and share storage %s", g.key, j, k, roots[j].Name())
 			}
-			if lvs[j] != nil {
+			if lvs[j] != nil && args[k] != nil {
 				if lvk, ok := x.lvalue(args[k], &[]string{}); ok && ctDisjoint(lvs[j].path, lvk.path) {
 					continue
 				}
@@ -1679,9 +1876,9 @@ func (x *fnTr) userCall(call *ast.CallExpr, g *ctFn, pre *[]string, used bool) [
 			lhs = append(lhs, fmt.Sprint(x.junk))
 			continue
 		}
-		if len(lvs[j].path) == 0 {
+		if len(lvs[j].path) == 0 && lvs[j].win == nil {
 			lhs = append(lhs, fmt.Sprint(lvs[j].v))
-			x.wr = append(x.wr, ctWrite{root: x.resolve(lvs[j].root), pos: call.Pos()})
+			x.wr = append(x.wr, ctWrite{root: x.resolve(lvs[j].root), pos: call.Pos(), br: append([]ctBranch{}, x.branches...)})
 			continue
 		}
 		t := x.tmp()
@@ -1883,11 +2080,17 @@ func (t *ctTr) readBeforeWrite(g *ctFn, w, r int, depth int) string {
 			case *ast.CallExpr:
 				if o := ctCalleeOf(p.info, s); o != nil {
 					if h, ok := t.byObj[o]; ok {
-						for j, a := range ctCallArgs(p.info, s) {
-							if j < len(h.written) && h.written[j] {
+						for j, a := range t.alignArgs(h, p.info, s) {
+							if a != nil && j < len(h.written) && h.written[j] {
 								if st, ok := stepOf(a); ok {
 									out[st] = true
 								}
+							}
+						}
+					} else if sp, ok := ctAsm[ctFuncKey(o)]; ok && ctInMine(o) {
+						for _, k := range sp.written {
+							if st, ok := stepOf(s.Args[k]); ok {
+								out[st] = true
 							}
 						}
 					}
@@ -1943,10 +2146,16 @@ func (t *ctTr) sameStmtSafe(g *ctFn, st ast.Stmt, w, r int, al aliasMap, depth i
 	}
 	if call != nil {
 		if o := ctCalleeOf(p.info, call); o != nil {
+			if _, isAsm := ctAsm[ctFuncKey(o)]; isAsm && ctInMine(o) {
+				return "" // an assembly routine: its model is a function of the argument values
+			}
 			if h, ok := t.byObj[o]; ok {
-				args := ctCallArgs(p.info, call)
+				args := t.alignArgs(h, p.info, call)
 				nested := false
 				for _, a := range args {
+					if a == nil {
+						continue
+					}
 					ast.Inspect(a, func(n ast.Node) bool {
 						if c, isCall := n.(*ast.CallExpr); isCall {
 							if tv, isT := p.info.Types[c.Fun]; !isT || !tv.IsType() {
@@ -1960,11 +2169,11 @@ func (t *ctTr) sameStmtSafe(g *ctFn, st ast.Stmt, w, r int, al aliasMap, depth i
 				}
 				if !nested {
 					for j, a := range args {
-						if !h.written[j] || t.rootObj(p, a, al) != g.params[w] {
+						if a == nil || !h.written[j] || t.rootObj(p, a, al) != g.params[w] {
 							continue
 						}
 						for k, b := range args {
-							if k == j || !ctPtrLike(h.params[k].Type()) || t.rootObj(p, b, al) != g.params[r] {
+							if b == nil || k == j || !ctPtrLike(h.params[k].Type()) || t.rootObj(p, b, al) != g.params[r] {
 								continue // by-value arguments are read before the call
 							}
 							if why := t.readBeforeWrite(h, j, k, depth+1); why != "" {
@@ -2033,8 +2242,11 @@ func (x *fnTr) assignTo(lhs ast.Expr, val string, define bool, rhs ast.Expr, out
 			o = x.p.info.Uses[id]
 		}
 		if v, ok := o.(*types.Var); ok && ctPtrLike(v.Type()) {
-			if x.f.paramIndex(v) >= 0 {
-				x.fail(id.Pos(), "pointer/slice parameter %s is re-bound", id.Name)
+			if pi := x.f.paramIndex(v); pi >= 0 {
+				_, isSlice := v.Type().Underlying().(*types.Slice)
+				if !(ctWindows && isSlice && !x.f.written[pi]) {
+					x.fail(id.Pos(), "pointer/slice parameter %s is re-bound", id.Name)
+				}
 			}
 			if rhs != nil {
 				if r := x.t.rootObj(x.p, rhs, x.al); r != nil && r != o {
@@ -2073,7 +2285,7 @@ func (x *fnTr) noteHolds(xo types.Object, rhs ast.Expr, pos token.Pos) {
 	}
 	if o := ctCalleeOf(x.p.info, call); o != nil {
 		if g, ok := x.t.byObj[o]; ok && len(g.holds) > 0 {
-			args := ctCallArgs(x.p.info, call)
+			args := x.t.alignArgs(g, x.p.info, call)
 			for _, k := range g.holds[0] {
 				if r := x.t.rootObj(x.p, args[k], x.al); r != nil {
 					x.noteAlias(xo, x.resolve(r), pos, true)
@@ -2085,6 +2297,10 @@ func (x *fnTr) noteHolds(xo types.Object, rhs ast.Expr, pos token.Pos) {
 
 func (x *fnTr) stmt(s ast.Stmt, out *[]string) {
 	info := x.p.info
+	switch s.(type) {
+	case *ast.AssignStmt, *ast.DeclStmt, *ast.ExprStmt, *ast.ReturnStmt, *ast.IncDecStmt:
+		x.curEnd = s.End()
+	}
 	switch v := s.(type) {
 	case *ast.EmptyStmt:
 	case *ast.BlockStmt:
@@ -2145,6 +2361,18 @@ func (x *fnTr) stmt(s ast.Stmt, out *[]string) {
 		if v.Init != nil {
 			x.stmt(v.Init, out)
 		}
+		if c, ok := ctAssume[x.t.src(v.Cond)]; ok {
+			// fixed by the premises of the property (recorded in the generated file): only the live branch exists
+			if v.Init != nil {
+				x.stmt(v.Init, out)
+			}
+			if c == "1" {
+				x.stmt(v.Body, out)
+			} else if v.Else != nil {
+				x.stmt(v.Else, out)
+			}
+			return
+		}
 		if id, ok := ast.Unparen(v.Cond).(*ast.Ident); ok && x.f.specVar != nil && info.Uses[id] == x.f.specVar {
 			// the clone for a constant value of this parameter: only the taken branch exists
 			if x.f.specVal {
@@ -2160,11 +2388,14 @@ func (x *fnTr) stmt(s ast.Stmt, out *[]string) {
 			*out = append(*out, fmt.Sprintf(".declass %d %d %s", t, site, cond))
 			cond = ctVar(t)
 		}
+		x.branches = append(x.branches, ctBranch{v.Pos(), 0})
 		th := x.block(v.Body.List)
 		el := ".skip"
 		if v.Else != nil {
+			x.branches[len(x.branches)-1].arm = 1
 			el = x.block([]ast.Stmt{v.Else})
 		}
+		x.branches = x.branches[:len(x.branches)-1]
 		*out = append(*out, fmt.Sprintf(".ite %s %s %s", cond, th, el))
 	case *ast.ForStmt:
 		if v.Init != nil {
@@ -2287,7 +2518,13 @@ func (x *fnTr) assign(v *ast.AssignStmt, out *[]string) {
 		if len(rs) != len(v.Lhs) {
 			x.fail(v.Pos(), "call gives %d values for %d targets", len(rs), len(v.Lhs))
 		}
+		resView := x.t.resViewsOf(x.p, call)
 		for i, l := range v.Lhs {
+			if b, ok := resView[i]; ok {
+				// this result is a window of result b of the same call: the callee returned its offset
+				x.bindResultView(l, v.Lhs[b], rs[i], define, out)
+				continue
+			}
 			var r ast.Expr
 			if i == 0 {
 				r = v.Rhs[0]
@@ -2300,6 +2537,9 @@ func (x *fnTr) assign(v *ast.AssignStmt, out *[]string) {
 		x.fail(v.Pos(), "assignment arity")
 	}
 	if len(v.Lhs) == 1 {
+		if x.viewAssign(v, out) {
+			return
+		}
 		val := x.expr(v.Rhs[0], out)
 		if id, ok := v.Lhs[0].(*ast.Ident); ok && ctIsIntRepr(info.TypeOf(v.Rhs[0])) {
 			if site := x.siteOf2(v); site >= 0 { // a verdict stored in a variable
@@ -2334,6 +2574,10 @@ func (x *fnTr) ret(v *ast.ReturnStmt, out *[]string) {
 	switch {
 	case len(v.Results) == 0:
 		for _, r := range x.f.results {
+			if vw, ok := x.views[r]; ok {
+				vals = append(vals, ctVar(vw.off)) // a window of another result: its offset
+				continue
+			}
 			n, ok := x.vars[r]
 			if !ok {
 				x.fail(v.Pos(), "bare return with unnamed results")
@@ -2405,7 +2649,7 @@ func ctLabel(T types.Type, result bool) string {
 }
 
 func (t *ctTr) translate(f *ctFn) {
-	x := &fnTr{t: t, f: f, p: f.pkg, vars: map[types.Object]int{}, rdPos: -1}
+	x := &fnTr{t: t, f: f, p: f.pkg, vars: map[types.Object]int{}, rdPos: -1, views: map[types.Object]*ctView{}}
 	var out []string
 	if f.decl == nil {
 		x.al = aliasMap{}
@@ -2422,24 +2666,41 @@ func (t *ctTr) translate(f *ctFn) {
 			}
 			x.newVar(name, p)
 			l := ctLabel(p.Type(), false)
+			if _, ok := ctDevirt[ctFieldKey(p)]; ok {
+				l = "H" // an interface field with a known concrete value (a struct)
+			}
 			if o, ok := labelOverride[f.key+"/"+p.Name()]; ok {
 				l = o
 			}
 			f.pLabels = append(f.pLabels, l)
+		}
+		x.capVar = map[types.Object]int{}
+		for _, k := range f.capParams {
+			x.capVar[f.params[k]] = x.newVar(f.params[k].Name()+"$cap", nil)
+			f.pLabels = append(f.pLabels, "L")
 		}
 		for j, w := range f.written {
 			if w {
 				f.rLabels = append(f.rLabels, f.pLabels[j])
 			}
 		}
-		for _, r := range f.results {
-			f.rLabels = append(f.rLabels, ctLabel(r.Type(), true))
+		for i, r := range f.results {
+			if _, isView := f.resView[i]; isView {
+				f.rLabels = append(f.rLabels, "L") // returned as the offset of the window
+				continue
+			}
+			l := ctLabel(r.Type(), true)
+			if o, ok := labelOverride[fmt.Sprintf("%s/result%d", f.key, i)]; ok {
+				l = o
+			}
+			f.rLabels = append(f.rLabels, l)
 			if r.Name() != "" && r.Name() != "_" {
 				n := x.newVar(r.Name(), r)
 				out = append(out, fmt.Sprintf(".assign %d [] %s", n, x.zero(r.Type(), r.Pos())))
 			}
 		}
 		x.junk = x.newVar("_", nil)
+		x.planViews(&out)
 		if t.usesReader(f) {
 			x.rdPos = x.newVar("reader$pos", nil)
 			out = append(out, fmt.Sprintf(".assign %d [] (.lit 0)", x.rdPos))
@@ -2455,8 +2716,11 @@ func (t *ctTr) translate(f *ctFn) {
 		// the aliasing discipline
 		for _, pr := range x.pairs {
 			for _, w := range x.wr {
-				if w.pos < pr.pos {
+				if w.pos < pr.pos || ctExclusive(pr.br, w.br) {
 					continue
+				}
+				if !pr.snap && !(x.usedAfter(pr.x, pr.end) && x.usedAfter(pr.r, pr.end)) {
+					continue // one of the two names is dead after the alias is made: no other view of the storage
 				}
 				if pr.snap {
 					if w.root == pr.r || (w.root == pr.x && w.viaPtr) {
@@ -2500,6 +2764,16 @@ func ctStrList(sb *strings.Builder, name string, items []string) {
 }
 
 func genCTIR() {
+	var sb strings.Builder
+	sb.WriteString("/- GENERATED by /verif/go/cmd/translate (ctir) from utils/utils.go, sm2/sm2.go, sm2/internal/*.go, sm2/internal/fiat/*.go — do not edit. -/\n")
+	sb.WriteString("import SMGo.Model.CTIR\nimport SMGo.Gen.SM2Params\nimport SMGo.Gen.SM2Tables\nset_option maxRecDepth 1000000\nnamespace SMGo.Gen.CTIRProg\nopen SMGo.Model.CTIR\n\n")
+	sb.WriteString(ctBuild())
+	sb.WriteString("end SMGo.Gen.CTIRProg\n")
+	writeIfChanged("CTIRProg.lean", []byte(sb.String()))
+}
+
+// ctBuild runs the translator with the current tables and returns the body of the generated namespace
+func ctBuild() string {
 	fset := token.NewFileSet()
 	t := &ctTr{fset: fset, pkgs: ctLoad(fset), fns: map[string]*ctFn{}, byObj: map[*types.Func]*ctFn{},
 		variants: map[*ctFn]map[bool]*ctFn{}, globIdx: map[string]int{}, globInit: map[string]*ctFn{}, extIdx: map[string]int{}, usedDeclass: map[int]bool{}}
@@ -2547,6 +2821,7 @@ func genCTIR() {
 			f.written, f.rets, f.holds = f.base.written, f.base.rets, f.base.holds
 		}
 	}
+	t.planCapsAndViews()
 	for _, f := range t.order {
 		func() {
 			if ctOptional[f.key] {
@@ -2575,8 +2850,6 @@ func genCTIR() {
 	}
 
 	var sb strings.Builder
-	sb.WriteString("/- GENERATED by /verif/go/cmd/translate (ctir) from utils/utils.go, sm2/sm2.go, sm2/internal/*.go, sm2/internal/fiat/*.go — do not edit. -/\n")
-	sb.WriteString("import SMGo.Model.CTIR\nimport SMGo.Gen.SM2Params\nimport SMGo.Gen.SM2Tables\nset_option maxRecDepth 1000000\nnamespace SMGo.Gen.CTIRProg\nopen SMGo.Model.CTIR\n\n")
 	sb.WriteString("def seqs : List Stmt → Stmt\n  | [] => .skip\n  | [s] => s\n  | s :: ss => .seq s (seqs ss)\n\n")
 	sb.WriteString("/-! function numbers -/\n")
 	for _, f := range t.order {
@@ -2595,7 +2868,7 @@ func genCTIR() {
 		if f.failed != "" {
 			failedL = append(failedL, f.key+": "+f.failed)
 			fmt.Fprintf(&sb, "/-- %s (%s): NOT TRANSLATED: %s -/\ndef fn_%d : Fn := { nparams := %d, nvars := %d, body := .panic, stub := true }\n\n",
-				f.key, pos, strings.ReplaceAll(f.failed, "-/", "- /"), f.id, len(f.params), len(f.params))
+				f.key, pos, strings.ReplaceAll(f.failed, "-/", "- /"), f.id, len(f.params)+len(f.capParams), len(f.params)+len(f.capParams))
 			continue
 		}
 		var vn []string
@@ -2609,7 +2882,7 @@ func genCTIR() {
 			}
 		}
 		fmt.Fprintf(&sb, "/-- %s (%s)\n    variables: %s\n    returns: final values of [%s], then the %d Go result(s) -/\n", f.key, pos, strings.Join(vn, " "), strings.Join(wr, ", "), len(f.results))
-		fmt.Fprintf(&sb, "def fn_%d : Fn := { nparams := %d, nvars := %d, body :=\n  %s }\n\n", f.id, len(f.params), f.nvars, f.body)
+		fmt.Fprintf(&sb, "def fn_%d : Fn := { nparams := %d, nvars := %d, body :=\n  %s }\n\n", f.id, len(f.params)+len(f.capParams), f.nvars, f.body)
 	}
 	sb.WriteString("def prog : Prog := [")
 	for i := range t.order {
@@ -2629,7 +2902,7 @@ func genCTIR() {
 		}
 		pl := f.pLabels
 		if f.failed != "" {
-			pl = make([]string, len(f.params))
+			pl = make([]string, len(f.params)+len(f.capParams))
 			for k := range pl {
 				pl[k] = "H"
 			}
@@ -2649,14 +2922,18 @@ func genCTIR() {
 	}
 	sb.WriteString("] }\n\n")
 	ctStrList(&sb, "extNames", t.exts)
-	sb.WriteString("/-- the executable model of each external call (`stdOracle extKinds tape`) -/\ndef extKinds : List ExtKind := [")
-	for i, e := range t.exts {
-		if i > 0 {
-			sb.WriteString(", ")
+	if ctEmitAsmSpecs {
+		sb.WriteString(ctAsmSpecsLean(t.exts))
+	} else {
+		sb.WriteString("/-- the executable model of each external call (`stdOracle extKinds tape`) -/\ndef extKinds : List ExtKind := [")
+		for i, e := range t.exts {
+			if i > 0 {
+				sb.WriteString(", ")
+			}
+			sb.WriteString("." + extTable[e].kind)
 		}
-		sb.WriteString("." + extTable[e].kind)
+		sb.WriteString("]\n\n")
 	}
-	sb.WriteString("]\n\n")
 	for i, e := range t.exts {
 		fmt.Fprintf(&sb, "def x_%s : Nat := %d\n", ctIdent(e), i)
 	}
@@ -2697,8 +2974,7 @@ def elemOfBytes (G : Nat → Val) (f : Nat) (b : Val) : Val := (runRes G f [zero
 		prev = append(prev, fmt.Sprintf("g_%d", i))
 	}
 	fmt.Fprintf(&sb, "def globals : Nat → Val := mkG [%s]\n\n", strings.Join(prev, ", "))
-	sb.WriteString("end SMGo.Gen.CTIRProg\n")
-	writeIfChanged("CTIRProg.lean", []byte(sb.String()))
+	return sb.String()
 }
 
 func init() { extraCmds["ctir"] = genCTIR }
